@@ -1,10 +1,10 @@
 package govc
 
 import (
-	"golang.org/x/tools/go/ssa"
 	"bytes"
 	"context"
 	"fmt"
+	"golang.org/x/tools/go/ssa"
 	"os"
 	"os/exec"
 	"path/filepath"
@@ -107,13 +107,13 @@ func (fv *FuncVC) usesBSeq() bool {
 
 // Result of one obligation.
 type Result struct {
-	Obl     *Obligation
-	Status  string // unsat | sat | unknown | timeout | error
-	Solver  string
-	Time    float64
-	Output  string
-	Model   map[string]string
-	Tried   []string
+	Obl    *Obligation
+	Status string // unsat | sat | unknown | timeout | error
+	Solver string
+	Time   float64
+	Output string
+	Model  map[string]string
+	Tried  []string
 }
 
 type solverSpec struct {
